@@ -2726,7 +2726,7 @@ func lemmaForwardSession(raw *rawEnvelope) (e *Session, e3 *Session, accepted bo
 //@   chaninv-local anychan.ResponseCommand : v != nil && v.ID == chankey(ch)
 //@   ensures [C05] @ownresponse err == nil ==> result0 != nil && result0.ID == reqCmd.ID
 //@   checks [C05] @duprejected inset(domatlock(channel.processingCmds), reqCmd.ID) ==> err != nil && tablewrites(channel.processingCmds) == 0
-//@   checks [C05] @reusable !inset(domatlock(channel.processingCmds), reqCmd.ID) ==> !inset(domatunlock(channel.processingCmds), reqCmd.ID)
+//@   checks [C04,C05] @reusable !inset(domatlock(channel.processingCmds), reqCmd.ID) ==> !inset(domatunlock(channel.processingCmds), reqCmd.ID)  ## also C04: a response that arrives after its requester gave up must find no entry, so that the receiver forwards it to the response stream instead of parking it in a channel nobody reads
 
 //@ func (*channel).trySubmitCommandResult :: (c, respCmd) (result)
 //@   props C04 C05
